@@ -154,9 +154,9 @@ fn build_column_array(
             Ok(Arc::new(BooleanArray::from(values)))
         }
         DataType::Null => {
-            // All nulls
-            let values: Vec<Option<i32>> = vec![None; tuples.len()];
-            Ok(Arc::new(Int32Array::from(values)))
+            // All nulls: the array type must be the arrow Null type announced by
+            // `DataType::Null.to_arrow()`, otherwise the record batch cannot be built
+            Ok(Arc::new(arrow::array::NullArray::new(tuples.len())))
         }
         DataType::Vector { dim } => {
             // Build array from vectors - use FixedSizeList when dimension is known
@@ -258,7 +258,8 @@ fn build_column_array(
 
 /// Extract a Value from an Arrow array at a given index
 fn extract_value_from_array(array: &dyn Array, row_idx: usize) -> Result<Value, ArrowConvertError> {
-    if array.is_null(row_idx) {
+    // (a NullArray has no validity buffer, so `is_null` alone does not recognise it)
+    if array.is_null(row_idx) || array.data_type() == &ArrowDataType::Null {
         return Ok(Value::Null);
     }
 
@@ -344,7 +345,7 @@ fn empty_array_for_type(dt: &DataType) -> ArrayRef {
         DataType::Float64 => Arc::new(Float64Array::from(Vec::<f64>::new())),
         DataType::String => Arc::new(StringArray::from(Vec::<&str>::new())),
         DataType::Bool => Arc::new(BooleanArray::from(Vec::<bool>::new())),
-        DataType::Null => Arc::new(Int32Array::from(Vec::<Option<i32>>::new())),
+        DataType::Null => Arc::new(arrow::array::NullArray::new(0)),
         DataType::Vector { dim } => {
             let field = Arc::new(Field::new("item", ArrowDataType::Float32, false));
             if let Some(fixed_dim) = dim {
